@@ -35,5 +35,7 @@ def run(P, R, L):
     R.clause("LCK-2", "DB::get captures all four sources under the mutex")
     R.clause("SRC-2", "Version::get consults level-0 files newest first and every deeper level in ascending order")
     K.src2_lookup_candidates(P, R, L)
+    R.clause("GRD-17", "a flushed table is placed below level 0 only while nothing in level 0 or in the next level overlaps its range")
+    K.grd17_memtable_output_level(P, R, L)
     R.not_decided += ["that orderings / binary searches compute the right index for every key set", "sequence-number arithmetic across reopen",
                       "option changes between reopens"]
